@@ -182,6 +182,27 @@ def run(ctx: Ctx, tier: str) -> Result:
         else:
             res.fail(Finding("C17.FAN", pa.qname, c, pa.loc(c), "a failing processor aborts the remaining processors/metrics (no guard inside the processor loop)"))
 
+    # every metric definition of the tracepoint is kept for the action: the builder stores the list it is given (at most a copy)
+    bma = p.functions.get("deep.api.tracepoint.trigger.build_metric_action")
+    from .common import literal_key
+    if bma is not None:
+        mp_ = bma.params[2] if len(bma.params) > 2 else "metrics"
+        vals_ = []
+        for d_ in t.nodes_in(bma, ast.Dict):
+            for k_, v_ in zip(d_.keys, d_.values):
+                if k_ is not None and literal_key(ctx, bma, k_) == "metrics":
+                    vals_.append(v_)
+        vals_ += [n.value for n in t.nodes_in(bma, ast.Assign) if isinstance(n.targets[0], ast.Subscript) and literal_key(ctx, bma, n.targets[0].slice) == "metrics"]
+        def _kept(v):
+            x = ctx.expand.expand(v, bma)
+            return bool(x) and all(y in ("@" + mp_, "list(@%s)" % mp_, "tuple(@%s)" % mp_, "@%s.copy()" % mp_, "[*@%s]" % mp_) for y in x)
+        if vals_ and all(_kept(v) for v in vals_):
+            res.ok("C17.FAN", {"the action keeps the metric definitions it was given": norm(vals_[0])})
+        else:
+            bad_ = next((v for v in vals_ if not _kept(v)), None)
+            res.fail(Finding("C17.FAN", bma.qname, bad_ if bad_ is not None else "<'metrics': metrics>", bma.loc(bad_) if bad_ is not None else bma.loc(),
+                             "the metric action is not given the tracepoint's metric definitions as they are (`%s`): definitions are dropped, merged or reordered before the first hit" % (
+                                 norm(bad_)[:60] if bad_ is not None else "no 'metrics' entry")))
     # "every active metric processor": the enumeration of the plugins of a kind hands out every plugin of the list that is of
     # that kind - nothing but the kind decides (two exporters of one class, or with one name, are two processors)
     csvc = p.cls("deep.config.config_service.ConfigService")
